@@ -470,7 +470,7 @@ var termRE = regexp.MustCompile(`^[@A-Za-z][A-Za-z0-9]*$`)
 
 func checkC02(w *World, c *Check, tier string) {
 	c.Exhaustive = true
-	c.Explanation = "Decides the structural clauses of 'emitted JSON is valid, unambiguous, injection-free and correctly termed': (raw) provenance of every byte string that reaches an output buffer in the closure of the JSON encoders — each operand appended must be a constant, the output of the blessed escaper stringBytes / encoding/json.Marshal, nested JSON from another MarshalJSON, or numeric/boolean/instant/duration text produced with a constant format; a string-kinded field, a receiver's own bytes, a %s-formatted string or the result of a non-escaping function reaching a buffer is a finding at the place where the raw bytes first enter (parameters are resolved at every call site); (esc-table) the escaper's tables mark none of 0x00–0x1f, '\"' and '\\\\' as safe and the escaper consults them; (name) every member name is a compile-time constant term; (dup) no two write sites of one type's encoder emit the same member name unless they are on mutually exclusive paths; (kind) every field is written by the writer kind its Go type calls for (bool/int/float/instant/duration/text/item/list) with RFC 3339 and xsd:duration produced by constant layout / the xsd package; (brace) every encoder returns either nil or a buffer closed after it was opened. Term conformity is C01.W-term. NOT decided: comma placement for every combination of set/unset properties (depends on run-time buffer contents), NaN/Inf, representation of invalid UTF-8."
+	c.Explanation = "Decides the structural clauses of 'emitted JSON is valid, unambiguous, injection-free and correctly termed': (raw) provenance of every byte string that reaches an output buffer in the closure of the JSON encoders — each operand appended must be a constant, the output of the blessed escaper stringBytes / encoding/json.Marshal, nested JSON from another MarshalJSON, or numeric/boolean/instant/duration text produced with a constant format; a string-kinded field, a receiver's own bytes, a %s-formatted string or the result of a non-escaping function reaching a buffer is a finding at the place where the raw bytes first enter (parameters are resolved at every call site); (esc-table) the escaper's tables mark none of 0x00–0x1f, '\"' and '\\\\' as safe and the escaper consults them; (name) every member name is a compile-time constant term; (dup) no two write sites of one type's encoder emit the same member name unless they are on mutually exclusive paths; (kind) every field is written by the writer kind its Go type calls for (bool/int/float/instant/duration/text/item/list) with RFC 3339 and xsd:duration produced by constant layout / the xsd package; (brace) every encoder returns either nil or a buffer closed after it was opened. Term conformity is C01.W-term. (grammar) every MarshalJSON method is interpreted path-sensitively over SSA with the buffer's state kept as the stack of a JSON parser: each write keeps the buffer a prefix of a JSON text for every combination of set/unset properties, every non-empty result is one complete value, floats are written only when finite, and (term-kind) no member whose name ends in 'Map' carries a plain JSON string (length classes 0/1/2+ of named slices are tracked through len comparisons and length getters); (escaper) cursor/flush discipline and escape table of stringBytes. NOT decided: an object value under the plain (non-Map) term, the representation of invalid UTF-8, json.Marshaler implementations outside the package."
 	c.RuleText = "one obligation per output-buffer sink in the encoder closure (raw), per escaper table entry class, per write site (name, kind), per (type, member name) (dup), per encoder (brace); exhaustive"
 	c.Trusted = []string{"go/ssa, go/types", "apcheck tables.go", "encoding/json.Marshal and the copied escaper stringBytes escape per RFC 8259 given their tables"}
 	c.floor("C02.raw", 40)
